@@ -55,6 +55,15 @@ fn srcfile(rng: &mut Rng) -> Item {
 }
 
 fn filler(rng: &mut Rng, kind: usize) -> Item {
+    if rng.chance(1, 6) {
+        // long lines: items are counted, not bytes
+        let n = *rng.pick(&[200usize, 400, 900, 3000, 9000]);
+        return if rng.chance(1, 2) {
+            Item::HeaderKV { key: "a comment".into(), value: Some("x".repeat(n)) }
+        } else {
+            Item::Noise(format!("noise {}", "y".repeat(n)))
+        };
+    }
     match kind % 5 {
         0 => Item::Noise(rng.pick(NOISE_CATALOGUE).to_string()),
         1 => header(rng),
